@@ -1,6 +1,10 @@
 package main
 
-import "gtverif/internal/gal"
+import (
+	"fmt"
+
+	"gtverif/internal/gal"
+)
 
 // Fixed corpus: the DESIGN §5 witness and the shapes found while building the check.
 
@@ -107,6 +111,25 @@ func corpus() []*prog {
 		{Name: "Original", Embeds: emb(p, "E"), Methods: []gmeth{m("Own", nil, nil)},
 			Fields: []gfield{{Name: "Foo", T: fn(nil, false, nil)}, {Name: "Deep", T: basic("int")}}}}
 	out = append(out, fieldShadowProgram(gal.NewRand(14), "c14", "corpus"), fieldShadowProgram(gal.NewRand(15), "c15", "corpus"))
+	// c16-c23: an embedded interface that itself embeds interfaces with overlapping methods of identical
+	// signature (one class per entry, see ifaceUnionProgram): the shared method is ONE method
+	for v := 0; v < 8; v++ {
+		out = append(out, ifaceUnionProgram(gal.NewRand(uint64(16+v)), fmt.Sprintf("c%d", 16+v), "corpus", v))
+	}
+	// c24, c25: embedded types whose package is not loaded — via.Via embeds far.Deep2 and no generated
+	// package imports far; the predeclared error has no package at all
+	p = newp("c24")
+	p.Structs = []gstruct{{Name: "Original", Embeds: []gembed{{T: named(pVia, "Via")}, {T: named(pVia, "ViaI")}},
+		Methods: []gmeth{m("Own", nil, nil)}}}
+	p = newp("c25")
+	p.Structs = []gstruct{{Name: "E", Embeds: []gembed{{T: tErr}}, Methods: []gmeth{m("Code", nil, ps(par("", basic("int"))))}},
+		{Name: "Original", Embeds: []gembed{{T: named(self(p), "E"), Ptr: true}}, Methods: []gmeth{m("Own", nil, nil)}}}
+	p.Targets = []string{"Original", "E"}
+	// c26-c32: an on-demand import whose package name is bound already (one class per entry, see
+	// aliasClashProgram; c26 is the audit's reproducer: plain util = a/util, embedded uses.UE brings b/util)
+	for v := 0; v < 7; v++ {
+		out = append(out, aliasClashProgram(gal.NewRand(uint64(26+v)), fmt.Sprintf("c%d", 26+v), "corpus", v))
+	}
 	// c7, c8: one method per regression-prone shape (see shapeProgram), fixed seeds
 	out = append(out, shapeProgram(gal.NewRand(7), "c7", "corpus"), shapeProgram(gal.NewRand(8), "c8", "corpus"))
 	return out
